@@ -1461,4 +1461,71 @@ theorem effective_fresh (seed : List Comp) (fired : List Fired) (seen : List Com
       exact ih seen hseed'
 
 
+/-! ### InsightsEvaluator: decoration cannot lose outcomes -/
+
+def PreservesSt (f : Stmt) : Prop := ∀ s s', f s = .ok s' → s'.st = s.st
+
+theorem seqStmts_st (l : List Stmt) (h : ∀ f ∈ l, PreservesSt f) (s : ISt) : (seqStmts l s).st = s.st := by
+  induction l generalizing s with
+  | nil => rfl
+  | cons f rest ih =>
+    simp only [seqStmts]
+    cases hf : f s with
+    | ok s' =>
+      simp only
+      rw [ih (fun g hg => h g (List.mem_cons_of_mem _ hg)) s', h f (by simp) s s' hf]
+    | error e => rfl
+
+theorem machineIdStmt_st (d : Deco) : PreservesSt (machineIdStmt d) := by
+  intro s s' h
+  unfold machineIdStmt at h
+  split at h
+  · cases h; rfl
+  · split at h
+    · cases h; rfl
+    · cases h; rfl
+    · cases h
+
+theorem releaseStmt_st (d : Deco) : PreservesSt (releaseStmt d) := by
+  intro s s' h
+  unfold releaseStmt at h
+  split at h
+  · cases h; rfl
+  · split at h
+    · cases h; rfl
+    · cases h; rfl
+    · cases h
+
+theorem branchStmt_st (d : Deco) : PreservesSt (branchStmt d) := by
+  intro s s' h
+  unfold branchStmt at h
+  split at h
+  · cases h; rfl
+  · split at h
+    · cases h; rfl
+    · cases h; rfl
+    · cases h
+
+theorem observerI_st (d : Deco) (r : Rule) (s : ISt) : (observerI d r s).st = observe s.st r := by
+  have h1 : observerI d r s =
+      seqStmts [machineIdStmt d, releaseStmt d, branchStmt d] { s with st := observe s.st r } := rfl
+  rw [h1, seqStmts_st [machineIdStmt d, releaseStmt d, branchStmt d]]
+  intro f hf
+  simp only [List.mem_cons, List.not_mem_nil, or_false] at hf
+  rcases hf with rfl | rfl | rfl
+  · exact machineIdStmt_st d
+  · exact releaseStmt_st d
+  · exact branchStmt_st d
+
+theorem stepI_st (env : Env) (d : Deco) (s : ISt) (f : Fired) : (stepI env d s f).st = stepG env s.st f := by
+  unfold stepI stepG
+  rw [observerI_st]
+
+theorem foldl_stepI_st (env : Env) (d : Deco) (fired : List Fired) (s : ISt) :
+    (fired.foldl (stepI env d) s).st = fired.foldl (stepG env) s.st := by
+  induction fired generalizing s with
+  | nil => rfl
+  | cons f rest ih => simp only [List.foldl_cons]; rw [ih, stepI_st]
+
+
 end IV.Rules
